@@ -349,6 +349,11 @@ def img_to_buf(img, image_opts, georef=None):
         # force 255 colors for png with globals.image.paletted
         image_opts.colors = 255
 
+    if image_opts.transparent and img.mode in ('RGB', 'L') and 'transparency' in img.info:
+        # one color is marked as transparent (PNG tRNS), formats other than
+        # PNG can only keep that with an alpha channel
+        img = img.convert('RGBA' if img.mode == 'RGB' else 'LA')
+
     format = filter_format(image_opts.format.ext)
     if format == 'mixed':
         if img_has_transparency(img):
